@@ -225,6 +225,7 @@ class Sub:
              "POPULATION_KURTOSIS_EVENT": lambda s: s.kurtosis(),
              "SAMPLE_KURTOSIS_EVENT": lambda s: s.kurtosis(False),
              "POPULATION_EXCESS_K_EVENT": lambda s: s.excess_kurtosis(),
+             "SAMPLE_EXCESS_K_EVENT": lambda s: s.excess_kurtosis(False),
              }.get(name)
         if g is not None and self.stat is not None:
             v = g(self.stat)
